@@ -325,6 +325,48 @@ Section D.
   Qed.
 
 
+  (* C02 for the point cloud, reader side: every conformant layout (the column comment on the second line) *)
+  Lemma spec_rows_float_rows w fields (rows : table) :
+    spec_rows O (p3d_schema w) fields = Ok rows -> read_float_rows O w fields = Ok rows.
+  Proof.
+    revert rows; induction fields as [|fs fields IH]; intros rows; cbn; [auto|].
+    destruct (read_row O false (p3d_schema w) fs); [|discriminate].
+    destruct (spec_rows O (p3d_schema w) fields) as [rs|]; [|discriminate]. rewrite (IH rs eq_refl). auto.
+  Qed.
+
+  Lemma read_row_p3d_len w fs (r : row) : read_row O false (p3d_schema w) fs = Some r -> List.length fs = w.
+  Proof.
+    unfold read_row, types_for, p3d_schema, mk_schema. cbn [s_fixed s_group tail_types andb]. rewrite app_nil_r, repeat_length.
+    destruct (Nat.eqb_spec w (List.length fs)); [auto|discriminate].
+  Qed.
+
+  Theorem p3d_reader_layouts w b1 e1 b2 e2 (items : list item) (rows : table) :
+    w = 3 \/ w = 6 -> HASH :: b1 = p3d_line1 -> HASH :: b2 = p3d_line2 w ->
+    forallb item_ok items = true ->
+    spec_rows O (p3d_schema w) (items_rows items) = Ok rows ->
+    read_p3d O (render_items (IComment b1 e1 :: IComment b2 e2 :: items)) = Ok (w, rows).
+  Proof.
+    intros Hw E1 E2 H SR. destruct (p3d_lines_ok w Hw) as [H1 H2]. rewrite <- E1 in H1. rewrite <- E2 in H2.
+    assert (N1 : no_nl b1 = true) by (destruct (hdr_ok_inv _ H1) as [b [[= <-] N]]; exact N).
+    assert (N2 : no_nl b2 = true) by (destruct (hdr_ok_inv _ H2) as [b [[= <-] N]]; exact N).
+    assert (OKI : forallb item_ok (IComment b1 e1 :: IComment b2 e2 :: items) = true) by (cbn; rewrite N1, N2, H; reflexivity).
+    unfold read_p3d, read_p3d_gen. rewrite (table_of_rendering _ OKI).
+    change (items_rows (IComment b1 e1 :: IComment b2 e2 :: items)) with (items_rows items).
+    assert (EX : p3d_expected false (render_items (IComment b1 e1 :: IComment b2 e2 :: items)) = Some w).
+    { unfold p3d_expected, nth_line. rewrite !render_items_cons. cbn [render_item].
+      change (HASH :: b1 ++ eol_txt e1) with ((HASH :: b1) ++ eol_txt e1).
+      change (HASH :: b2 ++ eol_txt e2) with ((HASH :: b2) ++ eol_txt e2). rewrite <- !app_assoc.
+      rewrite lines_app_eol by (cbn; exact N1). rewrite lines_app_eol by (cbn; exact N2). cbn [nth].
+      rewrite E1, E2. pose proof p3d_ok as P. unfold p3d_hdr_ok in P. rewrite !andb_true_iff, !negb_true_iff in P.
+      destruct P as [[[[[[[[_ _] _] _] NX] X3] R3] X6] R6]. rewrite NX. unfold width_of_line.
+      destruct Hw as [-> | ->]; [rewrite X3, R3|rewrite X6, R6]; reflexivity. }
+    rewrite EX. destruct (items_rows items) as [|fs fields] eqn:EF.
+    - cbn in SR. injection SR as <-. reflexivity.
+    - assert (L : List.length fs = w).
+      { cbn in SR. destruct (read_row O false (p3d_schema w) fs) eqn:ER; [|discriminate]. apply (read_row_p3d_len _ _ _ ER). }
+      rewrite L, Nat.eqb_refl. rewrite (spec_rows_float_rows w _ rows SR). reflexivity.
+  Qed.
+
   (* ================================================================ the whole dataset *)
   Definition images_equiv (a b : list txt) : Prop := forall i, In i a <-> In i b.
   Definition featset_equiv (a b : featset O) : Prop :=
